@@ -7,6 +7,8 @@
     Checkable::SendNotifications (paused / cold-start stash)   lib/icinga/checkable-notification.cpp:66-110
     NotificationComponent::NotificationTimerHandler (guards)   lib/notification/notificationcomponent.cpp:138-206
     CheckerComponent::ObjectHandler (idle set = active ∧ ¬paused) lib/checker/checkercomponent.cpp:291-317
+    Endpoint::AddClient / RemoveClient / GetConnected (the SET of clients)  lib/remote/endpoint.cpp:38-92
+    ConfigObject::DumpObjects / RestoreObjects (attributes with the `state` flag)  lib/base/configobject.cpp:465-586
   Core Lean only.
 -/
 namespace Icinga.C10
@@ -46,6 +48,21 @@ def insertName (x : Name) : List Name → List Name
 def sortNames : List Name → List Name
   | [] => []
   | x :: xs => insertName x (sortNames xs)
+
+/-! ### Endpoint: the set of attached JSON-RPC connections (endpoint.cpp:38-92) -/
+
+/-- endpoint.cpp:44 `m_Clients.insert(client)` — a `std::set`: inserting a member again changes nothing. -/
+def setInsert {α : Type} [BEq α] (l : List α) (x : α) : List α := if l.contains x then l else x :: l
+
+/-- endpoint.cpp:61 `m_Clients.erase(client)` — the other clients stay. -/
+def setErase {α : Type} [BEq α] (l : List α) (x : α) : List α := l.filter (· != x)
+
+/-- One connection attached to an `Endpoint` object: the endpoint's name and the identity of the connection
+    (both members of a zone dial each other, so one endpoint can hold several at a time). -/
+abbrev Client := Name × Nat
+
+/-- endpoint.cpp:88-92 `GetConnected()`: `!m_Clients.empty()` of the endpoint called `e` — at least one client left. -/
+def connectedTo (cs : List Client) (e : Name) : Bool := cs.any (fun c => c.1 == e)
 
 /-! ### ApiListener::UpdateObjectAuthority -/
 
@@ -114,6 +131,14 @@ def fresh (c : ObjCfg) : Obj :=
   if c.active && !c.runOnce then setAuthority { paused := true, pauses := 0, resumes := 0 } true
   else { paused := true, pauses := 0, resumes := 0 }
 
+/-- (Re)start of the process: the config compiler creates every object anew (`fresh`).  `keep`: the old process had
+    written its state file (icingaapplication.cpp:164 `DumpObjects`, every 5 minutes and at shutdown) and the new one restores it
+    into the new objects before they are activated (daemoncommand.cpp:289 `RestoreObjects`): attributes with the `state` flag
+    only.  Of what the model holds that is a Notification's `stashed_notifications` (notification.ti:80); `paused`
+    (configobject.ti:76) carries no `state` flag, nor do the `Pause()`/`Resume()` flags. -/
+def restart (c : ObjCfg) (old : Obj) (keep : Bool) : Obj :=
+  { fresh c with stash := if keep then old.stash else 0 }
+
 /-! ### the work a node does for an object: notifications and checks -/
 
 /-- checkable-notification.cpp:66-110, for one Notification of the checkable a notification is requested for.
@@ -157,7 +182,7 @@ def applyVerdict (c : ObjCfg) (o : Obj) (v : Verdict) : Obj :=
 structure Node where
   zone : Option (List Name)
   self : Name
-  conn : List Name       -- names of the endpoints with `GetConnected()`
+  clients : List Client  -- the connections attached to the Endpoint objects of this process (`Endpoint::m_Clients`)
   start : Int            -- `Application::GetStartTime()`, 0 = not set yet
   objs : List Obj
   updated : Bool := false   -- `ApiListener::m_UpdatedObjectAuthority` (apilistener-authority.cpp:83)
@@ -167,10 +192,14 @@ structure Node where
 /-- One run of `UpdateObjectAuthority` at time `now` over the objects described by `cfgs`. -/
 def Node.update (cfgs : List ObjCfg) (n : Node) (now : Int) : Node :=
   let f := fun (c : ObjCfg) (o : Obj) =>
-    applyVerdict c o (authority n.zone n.self (fun e => n.conn.contains e) n.start now c.name)
+    applyVerdict c o (authority n.zone n.self (connectedTo n.clients) n.start now c.name)
   -- :46-47 the cold-start return comes before `m_UpdatedObjectAuthority.store(true)` (:83); it does not depend on a name
-  let cold := authority n.zone n.self (fun e => n.conn.contains e) n.start now [] == .keep
+  let cold := authority n.zone n.self (connectedTo n.clients) n.start now [] == .keep
   { n with objs := List.zipWith f cfgs n.objs, updated := n.updated || !cold }
+
+/-- `Endpoint::AddClient` / `RemoveClient` on the Endpoint object called `e` with connection number `id`. -/
+def Node.link (n : Node) (e : Name) (id : Nat) (up : Bool) : Node :=
+  { n with clients := if up then setInsert n.clients (e, id) else setErase n.clients (e, id) }
 
 /-- A notification is requested for the checkable all Notification objects of the case belong to. -/
 def Node.request (cfgs : List ObjCfg) (n : Node) : Node :=
@@ -199,8 +228,8 @@ inductive Layout | noZone | single | pair
   deriving DecidableEq, Repr
 
 inductive Ev
-  | boot (s : Side) (start : Int)     -- (re)start of the process: fresh objects, no connections
-  | link (s : Side) (up : Bool)       -- `s`'s connection to the other member comes up / goes down
+  | boot (s : Side) (start : Int) (keep : Bool)  -- (re)start of the process: new objects, no connections; `keep`: through the state file
+  | link (s : Side) (id : Nat) (up : Bool)  -- connection number `id` of `s` to the other member is attached / removed
   | upd (s : Side) (now : Int)        -- `UpdateObjectAuthority()` on `s` (directly, or the authority timer fired)
   | idle (s : Side)                   -- anything else (a timer pump in which the authority timer was not due)
   | request (s : Side)                -- a notification is requested on `s` for the object's checkable
@@ -209,15 +238,18 @@ inductive Ev
   deriving DecidableEq, Repr
 
 def Ev.side : Ev → Side
-  | .boot s _ => s | .link s _ => s | .upd s _ => s | .idle s => s
+  | .boot s _ _ => s | .link s _ _ => s | .upd s _ => s | .idle s => s
   | .request s => s | .ntimer s => s | .due s => s
 
 structure Half where
-  sees : Bool
+  conns : List Nat       -- numbers of the connections to the other member that are attached on this side
   start : Int
   obj : Obj
   updated : Bool := false
   deriving DecidableEq, Repr
+
+/-- `Endpoint::GetConnected()` of the other member's Endpoint object: at least one connection left. -/
+def Half.sees (h : Half) : Bool := !h.conns.isEmpty
 
 structure Pair where
   a : Half
@@ -237,8 +269,8 @@ def otherOf (nA nB : Name) : Side → Name
   | .A => nB | .B => nA
 
 def stepHalf (l : Layout) (nA nB : Name) (c : ObjCfg) (s : Side) (h : Half) : Ev → Half
-  | .boot _ start => { sees := false, start := start, obj := fresh c, updated := false }
-  | .link _ up => { h with sees := up }
+  | .boot _ start keep => { conns := [], start := start, obj := restart c h.obj keep, updated := false }
+  | .link _ id up => { h with conns := if up then setInsert h.conns id else setErase h.conns id }
   | .upd _ now =>
     let v := authority (zoneOf l nA nB s) (selfOf nA nB s) (fun e => h.sees && e == otherOf nA nB s) h.start now c.name
     { h with obj := applyVerdict c h.obj v, updated := h.updated || v != .keep }
@@ -253,7 +285,7 @@ def step (l : Layout) (nA nB : Name) (c : ObjCfg) (p : Pair) (e : Ev) : Pair :=
   | .B => { p with b := stepHalf l nA nB c .B p.b e }
 
 def initPair (c : ObjCfg) : Pair :=
-  { a := { sees := false, start := 0, obj := fresh c }, b := { sees := false, start := 0, obj := fresh c } }
+  { a := { conns := [], start := 0, obj := fresh c }, b := { conns := [], start := 0, obj := fresh c } }
 
 /-- The observed trace: after every event, the object's state on A and on B. -/
 def trace (l : Layout) (nA nB : Name) (c : ObjCfg) : Pair → List Ev → List (Ev × Obj × Obj)
